@@ -17,7 +17,7 @@ from hypothesis import strategies as st
 
 from props import iter_common
 from vlib import dsops, history, oracles
-from vlib.core import Stage
+from vlib.core import Stage, hang_is_violation
 
 ID = "C03"
 LEVEL = "exploration"
@@ -172,5 +172,8 @@ STAGES = [
               "thorough": 4000
           },
           fork=True,
-          rust=True)
+          rust=True,
+          timeout=150,
+          timeout_violation=hang_is_violation(
+              "deterministic", "an unshuffled pass over a committed split"))
 ]
